@@ -106,6 +106,16 @@ var NegSnippets = []NegSnippet{
 	neg("mismatch", "filter", "deriveFilterNeg", "", "func negUse(f func(int) int, l []int) { _ = deriveFilterNeg(f, l) }"),
 	neg("mismatch", "compose", "deriveComposeNeg", "", "func negUse(f func(int) (string, error), g func(int) (int, error)) { _ = deriveComposeNeg(f, g) }"),
 	neg("mismatch", "compose", "deriveComposeNeg", "", "func negUse(f func(int) string, g func(string) (int, error)) { _ = deriveComposeNeg(f, g) }"),
+	// defined function types as arguments (accepted or refused, never a panic), and a file that dot-imports unsafe
+	neg("namedfunc", "do", "deriveDoNeg", "negGetter", "type negGetter func() (int, error)\n\nfunc negUse(a, b negGetter) { _, _, _ = deriveDoNeg(a, b) }"),
+	neg("namedfunc", "compose", "deriveComposeNeg", "negStage", "type negStage func(int) (int, error)\n\nfunc negUse(a, b negStage) { _ = deriveComposeNeg(a, b) }"),
+	neg("namedfunc", "curry", "deriveCurryNeg", "negBin", "type negBin func(int, string) bool\n\nfunc negUse(a negBin) { _ = deriveCurryNeg(a) }"),
+	neg("namedfunc", "mem", "deriveMemNeg", "negFn", "type negFn func([]int) int\n\nfunc negUse(a negFn) { _ = deriveMemNeg(a) }"),
+	neg("namedfunc", "fmap", "deriveFmapNeg", "negMap", "type negMap func(int) string\n\nfunc negUse(a negMap, l []int) { _ = deriveFmapNeg(a, l) }"),
+	neg("namedfunc", "toerror", "deriveToErrorNeg", "negPred", "type negPred func(int) (string, bool)\n\nfunc negUse(e error, a negPred) { _ = deriveToErrorNeg(e, a) }"),
+	neg("namedfunc", "apply", "deriveApplyNeg", "negBin", "type negBin func(int, string) bool\n\nfunc negUse(a negBin) { _ = deriveApplyNeg(a, \"x\") }"),
+	neg("namedfunc", "traverse", "deriveTraverseNeg", "negConv", "type negConv func(string) (int, error)\n\nfunc negUse(a negConv, l []string) { _, _ = deriveTraverseNeg(a, l) }"),
+	neg("dotunsafe", "equal", "deriveEqualNeg", "", "import . \"unsafe\"\n\nvar negSize = Sizeof(int32(0))\n\nfunc negPtr(p *int) Pointer { return Pointer(p) }\n\nfunc negUse(a, b []int) bool { return deriveEqualNeg(a, b) }"),
 	// the number of results of one stage and of parameters of the next differ, at every position and around error-only stages
 	neg("mismatch", "compose", "deriveComposeNeg", "", "func negUse(f func(int) error, g func(string) (int, error)) { _ = deriveComposeNeg(f, g) }"),
 	neg("mismatch", "compose", "deriveComposeNeg", "", "func negUse(f func(int) (string, error), g func() error, h func(int) (int, error)) { _ = deriveComposeNeg(f, g, h) }"),
